@@ -48,6 +48,9 @@ def execute(item):
 
 
 def summarize(items, results, tier):
-    acc = sum(1 for r in results if str(r.get("outcome", "")).startswith("accepted"))
-    ref = sum(1 for r in results if str(r.get("outcome", "")).startswith("refused"))
-    return {"programs_accepted": acc, "programs_refused": ref}
+    acc = sum(1 for r in results if ":accepted" in str(r.get("outcome", "")))
+    ref = sum(1 for r in results if ":refused" in str(r.get("outcome", "")))
+    und = sum(1 for r in results if "undefined-everywhere" in str(r.get("outcome", "")))
+    vals = sum((r.get("counts") or {}).get("defined", 0) for r in results)
+    return {"programs_accepted": acc, "programs_refused": ref, "programs_accepted_but_undefined_on_every_input": und,
+            "program_input_pairs_compared": vals}
